@@ -72,6 +72,8 @@ RECIPE_PROPERTIES = ["LockedFreezes", "LockedRefuses"]
 RECIPE_INSTANCES = {
     "RecipeLife": dict(init="LIFE_Init", alphabet="LIFE_Alphabet", objname="R_ObjName", auto_uses=False, life=True),
     "RecipeProg": dict(init="PROG_Init", alphabet="PROG_Alphabet", objname="PROG_ObjName", auto_uses=True, life=False),
+    "RecipeStage": dict(init="PROG_Init", alphabet="STAGE_Alphabet", objname="PROG_ObjName", auto_uses=True, life=False),
+    "RecipeStageQ": dict(init="PROG_Init", alphabet="STAGE_Small", objname="PROG_ObjName", auto_uses=True, life=False),
     "RecipeCore": dict(init="PROG_Init", alphabet="PROG_Core", objname="PROG_ObjName", auto_uses=True, life=False),
 }
 
